@@ -185,13 +185,13 @@ def worker(x):
                         out.append("omega %r outside (-pi, pi] (%s)" % (o, tag2))
                     M = np.asarray(matrix(mod, solver, o, chi, wedge), dtype=float)
                     gt = M.dot(gw)
-                    if abs(gt[0] + st * st) > tol:
+                    if not (abs(gt[0] + st * st) <= tol):
                         out.append("returned omega %.9f does not bring g to the diffraction condition: x = %.12g, -sin^2(theta) = %.12g (%s)" %
                                    (o, gt[0], -st * st, tag2))
                         break
                     if etas is not None:
                         e = etas[k]
-                        if abs(gt[1] + s2t * math.sin(e) / 2) > tol or abs(gt[2] - s2t * math.cos(e) / 2) > tol:
+                        if not (abs(gt[1] + s2t * math.sin(e) / 2) <= tol) or not (abs(gt[2] - s2t * math.cos(e) / 2) <= tol):
                             out.append("returned eta %.9f does not match the rotated g-vector (y,z) = (%.9g, %.9g) (%s)" % (e, gt[1], gt[2], tag2))
                             break
                 if not x["tangent"]:
@@ -243,13 +243,13 @@ def tth_worker(a):
             hf = np.array(h, dtype=float)
             hf = np.where(hf != 0, hf * (1 - 1.1e-16), hf)          # one ulp below the integer, where a cast to int truncates
             t1f = mod.tth(cell, hf, lam)
-            if abs(t1f - t1) > 1e-12:
+            if not (abs(t1f - t1) <= 1e-12):
                 out.append("tth for hkl %s given as floats one ulp below the integers (%r) = %.12g, for the integers %.12g (xfab.%s metric %s)" %
                            (h, hf.tolist(), t1f, t1, modname, rec["G"]))
                 break
             t2 = mod.tth2(U.dot(B).dot(np.array(h, dtype=float)), lam)
             s1, s2 = math.sin(t1 / 2) ** 2, math.sin(t2 / 2) ** 2
-            if abs(s1 - want) > 1e-9 * want or abs(s2 - want) > 1e-9 * want or not (0 <= t1 <= math.pi):
+            if not (abs(s1 - want) <= 1e-9 * want) or not (abs(s2 - want) <= 1e-9 * want) or not (0 <= t1 <= math.pi):
                 out.append("tth/tth2 for hkl %s: sin^2(tth/2) = %.12g / %.12g, lambda^2 Q*/(4 det G) = %.12g (xfab.%s metric %s)" %
                            (h, s1, s2, want, modname, rec["G"]))
                 break
